@@ -50,14 +50,13 @@ let zero = qc_of_token "0:0"
 let two_m50 = qc_of_float (z_of_int 1) (z_of_int (-50))
 
 (* one verdict; returns true when accepted *)
-let referee_one ~id ~ctx (n : int) (p : rows) (c : vec) (s : st) (fail : string -> string -> unit) : unit =
+let referee_one ~id ~ctx ~(tol : qc) (n : int) (p : rows) (c : vec) (s : st) (fail : string -> string -> unit) : unit =
   let desc () = Printf.sprintf "n=%d P=%s c=%s" n (string_of_rows p) (string_of_vec c) in
   match s with
   | StPanic -> fail (ctx ^ "-panic") (Printf.sprintf "the call panicked; %s" (desc ()))
   | StNonfinite -> fail (ctx ^ "-witness-outside") (Printf.sprintf "non-finite witness; %s" (desc ()))
   | St st ->
     bump (ctx ^ "_" ^ (match st with Infeasible -> "infeasible" | Unbounded -> "unbounded" | Optimal _ -> "optimal" | SolverError -> "error"));
-    let tol = tol_for (nat_of_int n) p in
     if not (qeqb tol tol_member) then bump "thin_system_verdicts";
     (match judge tau_margin tol delta_obj (nat_of_int n) p c st with
      | JOk -> bump "verdicts_certified"
@@ -104,7 +103,8 @@ let check (case : Sexp.t) : unit =
     List.iter (fun k -> if k <> "" then bump ("kind_" ^ k)) (String.split_on_char '+' kind);
     (* status *)
     let sst = status_of st in
-    referee_one ~id ~ctx:"status" n p (vzero (nat_of_int n)) sst fail;
+    let tol = tol_for (nat_of_int n) p in
+    referee_one ~id ~ctx:"status" ~tol n p (vzero (nat_of_int n)) sst fail;
     (* is_feasible: false only for thin sets, true only for sets that are not empty by the margin *)
     (match feas with
      | "panic" -> fail "feas-panic" (Printf.sprintf "is_feasible panicked; P=%s" (string_of_rows p))
@@ -127,7 +127,7 @@ let check (case : Sexp.t) : unit =
         bump ("obj_" ^ okind);
         let s' = status_of s in
         (match s' with St Infeasible -> () | _ -> nonempty := true);
-        referee_one ~id ~ctx:"lp" n p (vec_of c) s' fail
+        referee_one ~id ~ctx:"lp" ~tol n p (vec_of c) s' fail
       | _ -> raise (Parse_error "lp")) lps;
     (* chebyshev_center: deciding = the verdict of the implementation's program, judged against the REFERENCE
        Chebyshev program of P (model cheb_sys with checked norms); mirror = the implementation's system is literally
@@ -140,7 +140,7 @@ let check (case : Sexp.t) : unit =
         | Some ns ->
           let sys_ref = cheb_sys (nat_of_int n) p ns in
           let c_ref = cheb_obj (nat_of_int n) in
-          referee_one ~id ~ctx:"cheb" (n + 1) sys_ref c_ref (status_of s) fail;
+          referee_one ~id ~ctx:"cheb" ~tol:(tol_for (nat_of_int (n + 1)) sys_ref) (n + 1) sys_ref c_ref (status_of s) fail;
           let same = (try
                         let sa = aff_of sysa in
                         int_of_nat sa.a_in = n + 1 && rows_eq (rows_of_aff sa) sys_ref && veqb (vec_of c) c_ref
